@@ -2,6 +2,7 @@
 //! simulated caller, injected entropy and injected hash order. See /verif/DESIGN.md.
 
 mod case;
+mod corpus;
 mod dut;
 mod engine;
 mod family;
@@ -293,7 +294,7 @@ fn cmd_check(args: &Args) -> i32 {
         let v2 = ev_final.violation.as_ref().unwrap();
         println!("  oracle {}: {}", v2.oracle, v2.detail);
         println!("  minimised source ({} candidate runs):", shrink_runs);
-        for l in min.program.to_text().lines() {
+        for l in min.source_text().lines() {
             println!("    | {l}");
         }
         if !reproduced {
@@ -417,7 +418,7 @@ fn cmd_show(args: &Args) -> i32 {
     let tier = tier_from(args);
     let case = family::generate(prop, engine::run_seed(seed, prop, index), tier);
     println!("{}", case.to_json().to_pretty());
-    println!("--- source ---\n{}", case.program.to_text());
+    println!("--- source ---\n{}", case.source_text());
     let ev = family::evaluate(prop, &case);
     println!(
         "--- evaluation ---\nviolation: {:?}\nnontrivial: {} runs: {} ticks: {} validated: {} unspecified: {} harness_error: {:?}",
